@@ -1,6 +1,91 @@
 import TabulaModel.Util
+import TabulaModel.Model.Xref
 namespace Tabula.C04H
+open Tabula Tabula.Xref
 
-def handle (_op : String) (_args : List String) : String := "bad-op"
+def nat? (s : String) : Option Nat := s.toNat?
+
+def parseEntry (s : String) : Option (Nat × Entry) :=
+  match s.splitOn "." with
+  | [n, t, a, b] => do
+    let n ← nat? n; let t ← nat? t; let a ← nat? a; let b ← nat? b
+    match t with
+    | 0 => some (n, .free a)
+    | 1 => some (n, .at a)
+    | 2 => some (n, .inStm a b)
+    | _ => none
+  | _ => none
+
+def parseList {α} (sep : String) (f : String → Option α) (s : String) : Option (List α) :=
+  if s == "" then some [] else (s.splitOn sep).mapM f
+
+/-- `<off>/<prev|->/<entries>` -/
+def parseSec (s : String) : Option (Nat × (Section × Option Nat)) :=
+  match s.splitOn "/" with
+  | [off, prev, es] => do
+    let off ← nat? off
+    let prev ← if prev == "-" then some none else (nat? prev).map some
+    let es ← parseList "," parseEntry es
+    some (off, (es, prev))
+  | _ => none
+
+def parseMember (s : String) : Option (Nat × Nat × Nat) :=
+  match s.splitOn "." with
+  | [n, k, i] => do some ((← nat? n), (← nat? k), (← nat? i))
+  | _ => none
+
+def parseVal (s : String) : Option Val :=
+  match s.toList with
+  | 'i' :: r => (nat? (String.ofList r)).map .int
+  | 'd' :: r => (nat? (String.ofList r)).map .dict
+  | 's' :: r => (parseList "+" parseMember (String.ofList r)).map .objstm
+  | ['t'] => some .stream
+  | ['o'] => some .other
+  | _ => none
+
+def parseObj (s : String) : Option (Nat × (Nat × Val)) :=
+  match s.splitOn ":" with
+  | [off, num, v] => do some ((← nat? off), ((← nat? num), (← parseVal v)))
+  | _ => none
+
+def parseOp (s : String) : Option Op :=
+  match s.toList with
+  | ['c'] => some .clear
+  | 'g' :: r => (nat? (String.ofList r)).map .get
+  | _ => none
+
+def showVal : Option Val → String
+  | none => "e"
+  | some (.int i) => s!"i{i}"
+  | some (.dict i) => s!"d{i}"
+  | some (.objstm _) => "S"
+  | some .stream => "S"
+  | some .other => "o"
+
+def showEntry (n : Nat) : Entry → String
+  | .free a => s!"{n}:0:{a}"
+  | .at a => s!"{n}:1:{a}"
+  | .inStm a b => s!"{n}:2:{a}:{b}"
+
+def insertSorted (x : Nat) : List Nat → List Nat
+  | [] => [x]
+  | y :: ys => if x < y then x :: y :: ys else if x = y then y :: ys else y :: insertSorted x ys
+
+def dumpXref (x : Section) : String :=
+  let keys := (x.map Prod.fst).foldl (fun acc k => insertSorted k acc) []
+  ",".intercalate (keys.filterMap fun k => (getLast x k).map (showEntry k))
+
+def handle (op : String) (args : List String) : String :=
+  match op, args with
+  | "c04.run", [start, secs, objs, ops] =>
+    match nat? ((start.drop 2).toString), parseList "|" parseSec (secs.drop 2).toString,
+          parseList ";" parseObj (objs.drop 2).toString, parseList "," parseOp (ops.drop 2).toString with
+    | some st, some secs, some objs, some ops =>
+      let tables := parseAllXRefs secs st
+      let x := mergeTables tables
+      let res := run ⟨x, objs⟩ {} ops
+      s!"xref=[{dumpXref x}] res=[{",".intercalate (res.map showVal)}]"
+    | _, _, _, _ => "bad-op"
+  | _, _ => "bad-op"
 
 end Tabula.C04H
